@@ -389,6 +389,9 @@ def ite(c, t, e):
         return root(('ite', c, t, e))
     if is_bool(t) and is_bool(e):
         return tor(tand(c, t), tand(tnot(c), e))
+    # if c {Ok(a)} else {Ok(b)}  ==  Ok(if c {a} else {b})   (likewise Some / Err)
+    if isinstance(t, tuple) and isinstance(e, tuple) and len(t) == 2 and len(e) == 2 and t[0] == e[0] and t[0] in ('ok', 'some', 'err'):
+        return (t[0], ite(c, t[1], e[1]))
     return ('ite', c, t, e)
 
 
@@ -475,6 +478,25 @@ def substitute(t, mapping):
         return ('lam', t[1], substitute(t[2], inner) if inner else t[2])
     new = tuple(substitute(x, mapping) for x in t)
     return renorm(new)
+
+
+def shift_binders(t, floor, offset, bound=frozenset()):
+    """rename every binder `lam d` with d >= floor (and its bound occurrences) to d + offset; free variables stay"""
+    if not isinstance(t, tuple) or not t or offset == 0:
+        return t
+    if len(t) == 2 and t[0] == 'bv' and isinstance(t[1], int):
+        return ('bv', t[1] + offset) if t[1] in bound else t
+    if is_lin(t):
+        acc = const(t[1])
+        for r, c in t[2]:
+            acc = add(acc, scale(as_lin(shift_binders(r, floor, offset, bound)), c))
+        return acc
+    if len(t) == 3 and t[0] in ('lam', 'lam2') and isinstance(t[1], int):
+        if t[1] >= floor:
+            nb = bound | ({t[1]} if t[0] == 'lam' else {t[1], t[1] + 1})
+            return (t[0], t[1] + offset, shift_binders(t[2], floor, offset, nb))
+        return (t[0], t[1], shift_binders(t[2], floor, offset, bound))
+    return renorm(tuple(shift_binders(x, floor, offset, bound) for x in t))
 
 
 def renorm(t):
